@@ -121,6 +121,8 @@ def o_roundtrip(rec: Recorder, case, soft=False):
         return
     differing = 0
     for label, q in misses:
+        if len(q) > 4096:
+            continue  # beyond the library-wide maximum: refused with PasswordSizeError (C05)
         if f.maxlen is not None and len(q.encode() if isinstance(q, str) else q) > f.maxlen:
             expect = False
         else:
@@ -216,8 +218,10 @@ def o_libpass(rec: Recorder, case, soft=False):
         qb = q.encode() if isinstance(q, str) else q
         if maxlen and len(qb) > maxlen or b"\0" in qb and kind.startswith("Bcrypt"):
             continue
-        if qb == sb:
+        if qb == sb or len(qb) > 4096:
             continue
+        if kind.startswith("PBKDF2") and table.key_hmac("sha256" if "256" in kind else "sha512")(qb, {}, {}) == table.key_hmac("sha256" if "256" in kind else "sha512")(sb, {}, {}):
+            continue  # same HMAC key (trailing NUL / over-long key equivalence of RFC 2104)
         diff += 1
         r = h.verify(hash=hs, secret=q)
         if r is not False:
